@@ -26,7 +26,11 @@ def main():
     os.rmdir(wt)
     res = dict(seed=sd, props=props)
     try:
-        rc, out = sh(["git", "-C", "/repo", "worktree", "add", "-q", "--detach", wt, "HEAD"])
+        for attempt in range(10):   # concurrent evaluations contend for /repo's worktree lock
+            rc, out = sh(["git", "-C", "/repo", "worktree", "add", "-q", "--detach", wt, "HEAD"])
+            if rc == 0:
+                break
+            time.sleep(1 + attempt)
         assert rc == 0, out
         # the demo command was written for the author's own worktree: re-root it on the scratch worktree
         import re
